@@ -36,8 +36,10 @@ FP(s, k, nest, empty, cm) ==
        ELSE IF t \in F!Closers THEN nest > 0 /\ FP(s, k + 1, nest - 1, FALSE, FALSE)
        ELSE FP(s, k + 1, nest, FALSE, FALSE)
 
-Init == /\ \E f \in First, n \in 0..(MaxLen - 2) : \E r \in [1..n -> Alphabet \cup Extra \cup {"Newline"}] :
-              rawF = <<f>> \o r \o <<"Newline">>
+Init == /\ \E f \in First, n \in 0..(MaxLen - 2) :
+              \* the rest of the stream in two halves (TLC refuses to enumerate a function set above 10^6 elements)
+              \E r1 \in [1..(n \div 2) -> Alphabet \cup Extra \cup {"Newline"}], r2 \in [1..(n - (n \div 2)) -> Alphabet \cup Extra \cup {"Newline"}] :
+                 rawF = <<f>> \o r1 \o r2 \o <<"Newline">>
         /\ FP(rawF, 1, 0, TRUE, FALSE)
         /\ \E k \in 1..Len(rawF) : rawF[k] \in F!Soft
         /\ \E k \in 1..Len(rawF) : rawF[k] \in Extra
